@@ -33,6 +33,12 @@ entry(i) = prod_k c_k[i_k] of a tensor with all TT-ranks 1 applied to its factor
   (rand_norm; s from 1e-300 to 1e95), every drawn value used exactly once (rand_custom), identity pattern + noise of
   the requested level (0, 1e-300 .. 0.5) and entries of the dense tensor equal to 1 within a rigorous product bound
   for d up to 100 (1000 thorough) (rand_stab); d = 100 and mode size 600 for all of them.
+* C19.rand_stab.noise_level (gap closure): an explicitly requested, OBSERVABLE noise level (1e-8 .. 3e-2, noise sqrt(d r) <= 0.1):
+  the mean square deviation of the tensor from one, summed over 26 .. 200 independently seeded tensors (int seeds or one
+  Generator), lies in a two-sided band around its exact expectation (second-moment recursion of the construction, about
+  d noise^2): Laurent-Massart bounds of the first-order weighted chi-square law, tails e^-25, widened by 1.25; accepted rms
+  within about [0.63, 1.45] of noise sqrt(d); ranks 1 (exactly the all-ones tensor if the diagonal noise is lost), 2 .. 7 and
+  per-bond profiles, d = 2 .. 40 (100), modes of size 1, dense export (<= 4096 entries) or an own cancellation-free contraction.
 * seed forms (C19.rand.seed_forms): int (repeatable, seed-dependent), np.random.Generator over PCG64 / MT19937 (really
   consumed), None (fresh on each call); the global NumPy state stays untouched.
 * documented default values of every constructor (C19.defaults).
@@ -54,7 +60,9 @@ BOUNDS = ('const/delta: 13 shapes with d<=5, n<=4 (incl. mode size 1) + d=1 + mo
           'in a separate clause; poly: 9 shapes x integer/float shifts (number/list/ndarray) x powers 0..4, -2..-1, 0.5, '
           '1.5, 7, 10 (13, 20) x scales 0, 1e-300..1e300, shifts up to 1e8, d<=100 (200) sampled vs Fractions; random '
           'constructors: 8 shapes x scalar/list/ndarray ranks x seeds + d=100 / n=600, extreme a/b and m/s, seed as '
-          'int/Generator/None; rand_stab d in {2..100} (1000 thorough), noise 0, 1e-300..0.5; defaults of all constructors')
+          'int/Generator/None; rand_stab d in {2..100} (1000 thorough), noise 0, 1e-300..0.5; defaults of all constructors; '
+          'rand_stab noise level two-sided: 10 shapes (15 thorough, d = 2..40 (100)) x ranks 1..4 (7) and per-bond profiles x noise 1e-8..3e-2, '
+          '26..200 tensors per case')
 
 EPS = np.finfo(float).eps
 
@@ -448,6 +456,104 @@ def rand_stab_ones(d, nk, r, noise, seed, as_array=False):
         return FAIL(f'entry deviates from 1 by {err:.3e} > bound {tol:.3e} (d={d}, r={r}, noise={noise})')
     if noise <= 1e-3 and not err <= 0.5:
         return FAIL(f'entries not of order one: |x-1| = {err}')
+    return PASS
+
+def _stab_expected_msd(n, prof, noise):
+    """E[(entry - 1)^2] of rand_stab, exactly, from the construction: an entry is e_0^T prod_k (J_k + N_k[i_k]) e_0 with J_k the
+    r_k x r_{k+1} rectangular identity and N_k[i] independent matrices of N(0, noise^2) entries.  With v_k the running row
+    vector, E[v_k^T v_k] = e_0 e_0^T + D_k, D_0 = 0, D_k = J_k^T D_{k-1} J_k + noise^2 (1 + tr D_{k-1}) I; E[entry] = 1, so the
+    mean square deviation is D_d[0, 0] (= (1 + noise^2)^d - 1 for rank 1, about d noise^2 for small noise)."""
+    D = np.zeros((1, 1))
+    for k in range(len(n)):
+        J = np.eye(prof[k], prof[k + 1])
+        D = J.T @ D @ J + noise ** 2 * (1.0 + np.trace(D)) * np.eye(prof[k + 1])
+    return float(D[0, 0])
+
+
+def _stab_weights(n):
+    """To first order entry - 1 = sum_k a_k[i_k] with a_k[j] = N_k[0, j, 0] iid N(0, noise^2), hence the mean square deviation
+    over the whole tensor is sum_k var_j(a_k) + (sum_k mean_j a_k)^2 = noise^2 * (sum_k chi2_{n_k - 1} / n_k + (sum_k 1/n_k) chi2_1)
+    with independent chi-square variables: the weights of the (sum_k (n_k - 1)) + 1 squared standard normals."""
+    w = []
+    for nk in n:
+        w += [1.0 / nk] * (nk - 1)
+    return w + [sum(1.0 / nk for nk in n)]
+
+
+def _stab_reps(n, x=25.0, keep=0.5):
+    """number of independent tensors after which the lower Laurent-Massart bound of the summed statistic is >= keep * mean"""
+    w = np.array(_stab_weights(n))
+    return int(math.ceil((2 * math.sqrt(x) / (1 - keep)) ** 2 * float((w ** 2).sum()) / float(w.sum()) ** 2)) + 1
+
+
+def _stab_msd(Y, n):
+    """mean over all multi-indices of (entry - 1)^2: dense export for <= 2^12 entries; otherwise an own contraction of the
+    telescoped form  Y - 1 = sum_k (prod_{l<k} G_l) (G_k - J_k) (prod_{l>k} J_l)  (block cores [[G, G - J], [0, J]]: a sum of
+    squares without cancellation)."""
+    if math.prod(int(k) for k in n) <= 1 << 12:
+        D = gen.dense(Y) - 1.0
+        return float(np.mean(D * D))
+    d = len(Y)
+    Z = []
+    for k, G in enumerate(Y):
+        a, nk, b = G.shape
+        J = np.broadcast_to(np.eye(a, b)[:, None, :], G.shape)
+        E = G - J
+        if k == 0:
+            C = np.concatenate([G, E], axis=2)
+        elif k == d - 1:
+            C = np.concatenate([E, J], axis=0)
+        else:
+            C = np.zeros((2 * a, nk, 2 * b))
+            C[:a, :, :b], C[:a, :, b:], C[a:, :, b:] = G, E, J
+        Z.append(C)
+    v = np.ones((1, 1))
+    for C in Z:
+        v = v @ (np.einsum('aib,cid->acbd', C, C).reshape(C.shape[0] ** 2, C.shape[2] ** 2) / C.shape[1])
+    return float(v[0, 0])
+
+
+@clause('C19.rand_stab.noise_level', funcs=('tensors.rand_stab',))
+def rand_stab_noise_level(n, r, noise, seed, reps, genobj=False, as_array=False):
+    """The stable random tensor is the all-ones tensor perturbed BY THE REQUESTED NOISE: for an explicitly requested, observable
+    noise level (noise * sqrt(d * max rank) <= 0.1) the deviation of the tensor from one has the size the construction implies,
+    from below and from above.  Statistic: the mean square deviation from 1 over all entries, summed over `reps` independently
+    seeded tensors (int seeds, or one Generator object used for all calls); expectation: reps * _stab_expected_msd (exact, about
+    d * noise^2); acceptance band: the Laurent-Massart bounds (each tail <= e^-25) of the first-order distribution
+    noise^2 * weighted chi-squares (_stab_weights), scaled by the exact expectation and widened by a factor 1.25 on either side
+    for the neglected higher orders (relative size <= noise^2 d r <= 0.01); with the prescribed number of tensors the accepted
+    rms lies within about [0.63, 1.45] of the expected one.  Every tensor: structure as requested, all entries within 0.5 of 1."""
+    n = [int(k) for k in n]
+    d = len(n)
+    prof = _want_profile(n, r)
+    if not 0 < noise * math.sqrt(d * max(prof)) <= 0.1:
+        return SKIP('noise level outside the first-order regime of this clause')
+    w = np.array(_stab_weights(n))
+    x = 25.0
+    mu1 = reps * float(w.sum())                                     # = reps * d, in units of noise^2
+    lo = mu1 - 2 * math.sqrt(reps * float((w ** 2).sum()) * x)
+    hi = mu1 + 2 * math.sqrt(reps * float((w ** 2).sum()) * x) + 2 * float(w.max()) * x
+    if lo < 0.45 * mu1:
+        return TRIVIAL(f'{reps} tensors are too few for a two-sided band (lower bound {lo / mu1:.2f} of the mean)')
+    scale = _stab_expected_msd(n, prof, noise) / d                   # exact expectation per unit weight (about noise^2)
+    g = np.random.default_rng(seed) if genobj else None
+    total, worst = 0.0, 0.0
+    for j in range(reps):
+        Y = teneva.rand_stab(np.array(n) if as_array else list(n), np.array(r) if as_array and isinstance(r, list) else r,
+                             noise, seed=g if genobj else seed * 1000 + j)
+        msg = _structure(Y, n, r)
+        if msg:
+            return FAIL(msg)
+        msd = _stab_msd(Y, n)
+        if not msd <= 0.25:
+            return FAIL(f'rms deviation from the all-ones tensor {math.sqrt(msd) if msd >= 0 else msd!r}: entries not of order one')
+        total += msd
+        worst = max(worst, msd)
+    rms, want = math.sqrt(total / reps), math.sqrt(scale * d)
+    if not (0.8 * lo * scale <= total <= 1.25 * hi * scale):
+        return FAIL(f'rand_stab(n={n}, r={r}, noise={noise:g}): rms deviation from the all-ones tensor over {reps} tensors is '
+                    f'{rms:.3e}, the construction (identity pattern + N(0, noise) on every core element) gives {want:.3e} '
+                    f'(about noise * sqrt(d)); accepted [{math.sqrt(0.8 * lo * scale / reps):.3e}, {math.sqrt(1.25 * hi * scale / reps):.3e}]')
     return PASS
 
 # ----------------------------------------------------------------------------------------------------------------
@@ -1080,6 +1186,25 @@ def cases(tier, seed):
             yield 'C19.rand_stab.ones', dict(d=d, nk=nk, r=r, noise=noise, seed=rs(), as_array=d == 100)
     for d, nk, r, noise in ((4, 6, 8, 1e-300), (4, 6, 8, 0.1), (3, 2, 5, 0.5), (20, 3, 3, 1e-8), (6, 6, 8, 1e-30)):
         yield 'C19.rand_stab.ones', dict(d=d, nk=nk, r=r, noise=noise, seed=rs())
+    # gap closure: explicitly requested, observable noise level - two-sided size of the deviation from the all-ones tensor
+    nl = [([4, 5, 6], (1, 2, [1, 3, 2, 1])), ([2, 2], (1, 3)), ([6, 6, 6, 6], (1, 4)), ([3, 1, 4, 2], (1, [1, 2, 3, 2, 1])), ([7, 8], (1, 4)),
+          ([3] * 6, (1, 2)), ([2] * 16, (1, 2)), ([2] * 40, (1, 3)), ([5, 4, 6, 3], ([1, 3, 1, 2, 1],)), ([1, 1, 9], (1, 2))] \
+        + ([([3] * 30, (1, 2, 5)), ([2] * 100, (1, 2)), ([30, 30, 30], (1, 6)), ([2, 600], (1, 3)), ([4, 5, 6], (3, 7, [1, 4, 6, 1]))] if big else [])
+    gn = gen.rng('C19.noise_level', seed)           # own stream: the seeds of the other cases stay what they were
+    levels = (1e-8, 1e-6, 1e-4, 1e-3, 1e-2, 3e-2)
+    k = 0
+    for n, profs in nl:
+        for r in profs:
+            rmax = r if isinstance(r, int) else max(r)
+            ok = [x for x in levels if x * math.sqrt(len(n) * rmax) <= 0.1]
+            k += 1
+            for j, noise in enumerate(ok):
+                # quick: rank 1 gets two levels (one or two for many modes), the other profiles one, rotating through the levels
+                if not (big or (r == 1 and (j + k) % (3 if len(n) < 10 else 4) == 0) or (r != 1 and j == k % len(ok) and len(n) < 30)):
+                    continue
+                for rep in range(3 if big else 1):
+                    yield 'C19.rand_stab.noise_level', dict(n=n, r=r, noise=noise, seed=int(gn.integers(10 ** 6)), reps=_stab_reps(n),
+                                                            genobj=bool((k + j + rep) % 3 == 0), as_array=bool((k + j) % 2))
     for fn in ('rand', 'rand_norm', 'rand_stab'):
         for n, r in (([4, 3, 5], 3), ([2, 2], [1, 2, 1]), ([3] * 12, 2), ([1, 1], 1)):
             for bitgen in ('pcg', 'mt') if big or len(n) == 3 else ('pcg',):
